@@ -16,6 +16,7 @@ package trzsz
 import (
 	"crypto/sha256"
 	"encoding/hex"
+	"encoding/json"
 	"fmt"
 	"os"
 	"path/filepath"
@@ -291,7 +292,7 @@ type destRun struct {
 
 func destEmitReset(tr *vTrace, r *destRun) {
 	ev := map[string]any{"e": "reset", "run": r.Run, "overwrite": r.Overwrite, "directory": r.Directory,
-		"proto": r.Proto, "role": r.Role, "stopdel": r.StopDel}
+		"proto": r.Proto, "role": r.Role, "stopdel": r.StopDel, "samepre": false}
 	for k, v := range r.Extra {
 		ev[k] = v
 	}
@@ -321,8 +322,20 @@ func destEmitPre(tr *vTrace, run int, snap map[string]destEntry, base string, sk
 		e := snap[k]
 		paths = append(paths, map[string]any{"up": up, "p": p, "t": destType(e), "c": destContentID(e)})
 	}
-	tr.Emit(map[string]any{"e": "pre", "run": run, "paths": paths}, nil)
+	// identical snapshots (the C09 sandboxes) are written once per process; checks/c09.py puts the
+	// full list back where the previous run of a trace file had a different one
+	b, _ := json.Marshal(paths)
+	h := destSum(b)[:16]
+	if destPreDedup && destPreSeen[h] {
+		tr.Emit(map[string]any{"e": "pre", "run": run, "h": h, "ref": true, "paths": []map[string]any{}}, nil)
+		return
+	}
+	destPreSeen[h] = true
+	tr.Emit(map[string]any{"e": "pre", "run": run, "h": h, "ref": false, "paths": paths}, nil)
 }
+
+var destPreDedup = false
+var destPreSeen = map[string]bool{}
 
 func destEmitDeltas(tr *vTrace, run int, deltas []destDelta, base string, skip func(d destDelta, rel string) bool) int {
 	n := 0
